@@ -83,3 +83,26 @@ Print Assumptions C03_io_error_safe.
 (* the statement has instances: a 300-byte script with empty reads and data delivered with EOF *)
 Example C03_script_example : stall_free [3; 0; 0; 5; 1; 0; 7; 100] /\ stall_free (repeat 1 300).
 Proof. split; vm_compute; repeat split; lia. Qed.
+
+(* reading from an unbuffered byte source (io.ByteScanner) Decode never consumes bytes beyond the outermost
+   item's declared end - on EVERY outcome, for every input and every way the source hands out its bytes
+   (schemas with at most 30 fields per structure; the regenerated schema is one: C05_instance) *)
+Require Import LedgerProofs.
+Theorem C03_no_overread : forall ty tag fl data sizes weof term x s',
+  ((flist_len fl <=? NMAX) && small_fl fl)%bool = true -> stall_free sizes ->
+  c_dec_top ty tag fl (new_decoder true (transport data sizes weof term)) = (x, s') ->
+  ls (rd s') = [] /\
+  blen data <= blen (b_data (bs (rd s'))) + 8 + (if 8 <=? blen data then unbe (firstn 4 (skipn 4 data)) 0 else 0).
+Proof.
+  intros ty tag fl data sizes weof term x s' Hsm Hsf H.
+  destruct (new_decoder_wf true (transport data sizes weof term) Hsf) as [Hw Hfl].
+  destruct (struct_no_overread ty fl (top_attr tag) VNone Hsm _ _ _ Hw H) as (Sh & len & C1 & C2).
+  assert (Hls: ls (rd s') = []).
+  { destruct Sh as (_ & (K & _) & _). cbn [new_decoder rd ls map] in K. destruct (ls (rd s')); [reflexivity|discriminate]. }
+  split; [exact Hls|].
+  assert (Hr': rden (rd s') = b_data (bs (rd s'))) by (unfold rden; rewrite Hls; reflexivity).
+  assert (Hr: rden (rd (new_decoder true (transport data sizes weof term))) = data) by reflexivity.
+  rewrite Hr, Hr' in C1, C2.
+  destruct (N.leb_spec 8 (blen data)) as [H8|H8]; [apply C2; [exact H8|reflexivity]|lia].
+Qed.
+Print Assumptions C03_no_overread.
